@@ -54,6 +54,13 @@ CORPUS = [
               ['wattr', 0, 'title', 'Plan'], ['wattr', 0, 'version', 7], ['wattr', 0, '_cache', 1],
               ['attr', 1, '_tmp', 5], ['attr', 1, 'fresh', 'v']],
      'call': ['clone', 0]},
+    # a custom attribute present with the value None (constructor keyword / assigned after having had a value) is an
+    # attribute of the copy too; likewise a WBS attribute whose value is None
+    {'hist': [['wbs', {}], tk(3, name='c', owner=None), tk(4, blocked_by='x', prio=None), ['roots', 0, [1, 2]],
+              ['attr', 2, 'blocked_by', None], ['wattr', 0, 'owner', None], ['wattr', 0, 'title', 'Plan']],
+     'call': ['clone', 0]},
+    {'hist': [['wbs', {}], tk(3, tag=None), tk(4), ['rootadd', 0, 1], ['append', 1, 2], ['attr', 2, 'fresh', None]],
+     'call': ['subtree', 0, 'single', [1]]},
     # an outside predecessor without WBS and an outside successor in another WBS: shared, mirror lists gain the copy
     {'hist': [['wbs', {}], tk(1), tk(2), ['rootadd', 0, 1], ['append', 1, 2], tk(9, name='free'), ['preds', 2, [3]],
               ['wbs', {}], tk(5), ['rootadd', 1, 5], ['succs', 1, [5]]], 'call': ['clone', 0]},
@@ -182,7 +189,8 @@ def run(ctx):
     k = len(CORPUS)
     dist = {'call': {}, 'outcome': {}, 'members': {}, 'selection': {'empty': 0, 'nested_or_repeated': 0, 'plain': 0, 'with_None': 0},
             'form': {}, 'outside_links': 0, 'outside_with_member_id_linked': 0, 'dropped_links': 0, 'internal_links': 0,
-            'wbs_attributes': 0, 'history_ops': 0, 'history_ops_raised': 0, 'after_ops': 0, 'after_ops_raised': 0}
+            'wbs_attributes': 0, 'history_ops': 0, 'history_ops_raised': 0, 'after_ops': 0, 'after_ops_raised': 0,
+            'source_has_custom_attribute_with_value_None': 0, 'source_wbs_has_attribute_with_value_None': 0}
     distinct = set()
     for i, (o, code) in enumerate(zip(obs, codes)):
         decide(ctx, o, code, i < k)
@@ -192,6 +200,8 @@ def run(ctx):
         dist['outcome'][oc] = dist['outcome'].get(oc, 0) + 1
         dist['history_ops'] += len(o['case']['hist'])
         dist['history_ops_raised'] += o.get('hist_raised', 0)
+        dist['source_has_custom_attribute_with_value_None'] += 1 if o.get('none_valued_custom') else 0
+        dist['source_wbs_has_attribute_with_value_None'] += 1 if o.get('none_valued_wattr') else 0
         heap = o['pre']['heap']
         nsrc = sum(1 for r in heap if r[5] == call[1] and not r[6])
         new = len(o['post']['heap']) - len(heap) - 1 if o['code'] == 0 else 0
@@ -258,7 +268,8 @@ def run(ctx):
                    'lists as multisets); independence under later mutation: snapshot comparison in the runner',
     )
     ctx.assumptions += [
-        'attribute values are compared by a token of (name, type, repr) of every public attribute (name, resource, start, '
+        'attribute values are compared by a token of (name, type, repr) of every public attribute PRESENT in the task (a key '
+        'whose value is None is distinguished from an absent key; name, resource, start, '
         'end, milestone, min_start, spent, custom ones); prio (int) and estimate (int) are model fields of their own; the '
         'copy is shallow: a mutable attribute VALUE is shared by reference (DESIGN 4.10, not claimed)',
         'attributes given to the WBS constructor land on the hidden root task, not on the WBS object; they are not public '
